@@ -26,7 +26,10 @@ import vlib
 PROPS = ["TfelVerif.C52.Props"]
 TREE_SOURCES = [("tfel-check", "tfel-check/src/tfel-check.cxx"), ("TestLauncher", "tfel-check/src/TestLauncher.cxx"),
                 ("PCLogger", "tfel-check/src/PCLogger.cxx"), ("ThreadPool", "src/System/ThreadPool.cxx"),
-                ("ProcessManager", "src/System/ProcessManager.cxx")]
+                ("ProcessManager", "src/System/ProcessManager.cxx"),
+                # not an anchor, but the signal dispatch ProcessManager relies on (one ProcessManager per command
+                # and per thread): compiled from the tree so that a repair of it can be checked on a scratch worktree
+                ("SignalManager", "src/System/SignalManager.cxx")]
 LIBS = ["TFELMFront", "TFELCheck", "TFELSystem", "TFELConfig", "MFrontLogStream", "TFELMaterial", "TFELNUMODIS",
         "TFELGlossary", "TFELUtilities", "TFELMathParser", "TFELUnicodeSupport", "TFELMathKriging",
         "TFELMathCubicSpline", "TFELMath", "TFELException"]
